@@ -9,6 +9,7 @@
 From JV Require Import Sem Gen.
 From JV Require Import Hand.Text Hand.Lexopt Hand.Json Hand.Cli.
 From JV Require Import Proofs.TextProofs Proofs.LexoptProofs Proofs.CliProofs Proofs.JsonProofs.
+Require JV.Proofs.CliCore.
 Open Scope Z_scope.
 
 (* For every option set with -J, every calendar, and every list of arguments that all convert ([run_dates]: the
@@ -112,3 +113,14 @@ Example C20_ex_output :
                ++ codes "            ""ordinal_display"": ""1752-246""," ++ NL
                ++ codes "            ""old_style"": true" ++ NL ++ codes "        }" ++ NL ++ codes "    ]" ++ NL ++ codes "}" ]).
 Proof. vm_compute. reflexivity. Qed.
+
+(* ---- C20_wellformed with [date_ok] discharged by the core development (Proofs/CliCore.v): for every calendar the
+   command can construct (Gregorian, Julian, or whatever Calendar::reforming accepts) *)
+Theorem C20_wellformed_closed :
+  forall o now args ds,
+    reachable_cal (o_calendar o) -> o_json o = true -> run_dates o now args ds ->
+    exists lines, options_run o now args = Ret (Ok lines) /\
+                  List.length lines = S (List.length ds) /\
+                  json_text (stdout_of lines) (jdoc (o_calendar o) ds).
+Proof. exact JV.Proofs.CliCore.options_run_json_closed. Qed.
+Print Assumptions C20_wellformed_closed.
